@@ -192,8 +192,9 @@ def check(R, F):
         handles = [b for b, blk in enumerate(fn.blocks) for st in blk['stmts'] if st['k'] == 'assign' and st['rv']['k'] == 'agg' and st['rv']['def'].startswith(handle)]
         ok = len(incs) == 1 and len(decs) == 1 and len(spawn) == 1 and len(handles) == 1 and fn.dominates(incs[0], spawn[0]) and fn.dominates(handles[0], spawn[0])
         if ok:
-            g = paths.dom_guards(fn, decs[0])
-            ok = any(re.match(r'^Result::is_err\(.*spawn.*\) not in \[0\]$|^Result::is_err\(.*\) not in \[0\]$', x) for x in g)
+            # the decrement runs exactly where spawn is known to have failed (is_err(), a match on Err, `?` residual, ...)
+            from qv.rulelib import failed_before
+            ok = failed_before(fn, decs[0], lambda t_: callee_name(t_).endswith('thread::Builder::spawn'))
             # the closure handed to spawn captures the handle
             st = [s for blk in fn.blocks for s in blk['stmts'] if s['k'] == 'assign' and s['rv']['k'] == 'agg' and s['rv']['ak'] == 'closure']
             cap = any(any(is_place(o) and handle.split('::')[-1] in fn.local_ty(o['pl']['l']) for o in s['rv']['ops']) for s in st)
